@@ -74,6 +74,11 @@ CLAIMS = {
             'Every ASCII string up to the stated length and every integer position: the path tree of the real '
             'HTML/CSS scanners, matchers, balance functions, attribute parser and value splitter is exhausted; '
             'each leaf checks totality and range well-formedness.', '§3 C16'),
+    'C17': ('bounded symbolic execution (CrossHair/z3) of the real action helpers on generated HTML/CSS documents with recorded ground truth '
+            '(same event generators as C09/C10), symbolic integer position; symbolic class-token and value-token holes',
+            'Every document of up to K events x every integer position: get_open_tag, select_item_html (next/previous), get_css_section '
+            'with properties and select_item_css (next/previous) return exactly the recorded tag, attribute, unquoted-value, class-token, '
+            'declaration name/value/value-token/before/after ranges.', '§3 C17'),
     'C18': ('bounded symbolic execution (CrossHair/z3) of both real tokenizers over all short strings',
             'Every ASCII string up to the stated length through the real markup and stylesheet tokenizers '
             '(property and value mode); each leaf checks that spans tile the input or a scanner error with an '
